@@ -2,6 +2,7 @@ package schema
 
 import (
 	"encoding/json"
+	"errors"
 	"fmt"
 	"reflect"
 	"strings"
@@ -140,10 +141,19 @@ func (o *ObjectSchema) unserializeInlinedDataToMap(data any) (map[string]any, er
 	for fieldName, property := range o.Properties() {
 		unserializedProperty, err := property.Unserialize(data)
 		if err != nil {
-			return nil,
-				fmt.Errorf("error while unserializing single inlined property %s for object %s (%q);"+
+			// A ConstraintError, so that enclosing lists, maps and objects can add the path that leads here.
+			path := []string{fieldName}
+			var propertyError *ConstraintError
+			if errors.As(err, &propertyError) {
+				path = append(path, propertyError.Path...)
+			}
+			return nil, &ConstraintError{
+				Message: fmt.Sprintf("error while unserializing single inlined property %s for object %s;"+
 					"fix the property or specify the object as a map",
-					fieldName, o.ID(), err)
+					fieldName, o.ID()),
+				Path:  path,
+				Cause: err,
+			}
 		}
 		return map[string]any{
 			fieldName: unserializedProperty,
